@@ -8,6 +8,9 @@ CONSTANTS
   MaxNodes = 7
   MaxStack = 4
   BugOptionalDropsNone = FALSE
+  FixedStar = FALSE
+  FixedFinalInString = FALSE
+  FixedNestedLiteral = FALSE
 INVARIANT AnnotationRoutesAgree
 INVARIANT NoRouteRaises
 INVARIANT EmitDone
